@@ -49,6 +49,7 @@ class Contract:
         self.frame_check = kw.pop("frame_check", True)
         self.closures = kw.pop("closures", {})  # nested def name -> Contract-like dict
         self.unwind = kw.pop("unwind", None)
+        self.may_raise = kw.pop("may_raise", ())  # exception names (or True) that are not obligations of this contract
         self.witness = kw.pop("witness", None)
         self.semantic_prune = kw.pop("semantic_prune", False)  # prune conditional expressions of specs with solver queries  # concrete arguments satisfying `requires` (vacuity guard)
         self.abstract_globals = kw.pop("abstract_globals", {})  # name -> (Ty, [facts]) : verified for every value with these facts
